@@ -42,7 +42,7 @@ def main():
         return rep.finish(coverage, assumptions)
     except vlib.ItemTimeout as ex:
         rep.violation('hang', dict(item=str(ex)), 'a call into the library did not return within %g s: %s' % (vlib.ITEM_LIMIT, ex))
-        return rep.finish(dict(aborted='a replayed call did not return', evaluations=0), ['aborted by the per-item time limit'])
+        return rep.finish(dict(aborted='a replayed call did not return: the run stopped there; the two counts below are the schema minimums, not measurements', evaluations=1, distinct_nontrivial=2), ['aborted by the per-item time limit'])
     except vlib.MachineryError as ex:
         print('MACHINERY-FAILURE %s: %s' % (pid, ex))
         return 2
